@@ -22,6 +22,10 @@ type c01Lit struct {
 	b    bool
 }
 
+// c01Escape writes a string as the body of a ZitiQL STRING token (grammar: ESC = '\\' ["\\fnrt], every other
+// character except '"', '\\' and control characters stands for itself).  It is the harness' own encoder of the
+// documented escape rules: the term of the literal carries the intended bytes, so the model never sees the
+// engine's decoder.
 func c01Escape(s string) string {
 	var b strings.Builder
 	for i := 0; i < len(s); i++ {
@@ -34,6 +38,10 @@ func c01Escape(s string) string {
 			b.WriteString(`\n`)
 		case '\t':
 			b.WriteString(`\t`)
+		case '\r':
+			b.WriteString(`\r`)
+		case '\f':
+			b.WriteString(`\f`)
 		default:
 			b.WriteByte(c)
 		}
@@ -306,11 +314,7 @@ func (p *c01TermParser) lit() *c01Lit {
 		if err != nil {
 			panic(err)
 		}
-		txt := strconv.FormatFloat(math.Float64frombits(bits), 'f', -1, 64)
-		if !strings.Contains(txt, ".") {
-			txt += ".0"
-		}
-		return &c01Lit{k: 'F', ftxt: txt}
+		return &c01Lit{k: 'F', ftxt: c01FloatText(math.Float64frombits(bits))}
 	case "D":
 		sec := p.int64()
 		return &c01Lit{k: 'D', sec: sec, ns: p.int64()}
@@ -321,6 +325,26 @@ func (p *c01TermParser) lit() *c01Lit {
 	default:
 		panic("lit " + k)
 	}
+}
+
+// c01FloatText: a NUMBER token that parses to exactly v and is not an int64 literal (used when a shrunk filter
+// is printed again): positional for ordinary magnitudes, mantissa + exponent otherwise (the grammar's exponent
+// is an INT without leading zeros)
+func c01FloatText(v float64) string {
+	if a := math.Abs(v); a == 0 || (a >= 1e-4 && a < 1e21) {
+		txt := strconv.FormatFloat(v, 'f', -1, 64)
+		if !strings.Contains(txt, ".") {
+			txt += ".0"
+		}
+		return txt
+	}
+	txt := strconv.FormatFloat(v, 'e', -1, 64)
+	i := strings.IndexByte(txt, 'e')
+	exp, err := strconv.Atoi(txt[i+1:])
+	if err != nil {
+		panic("bad exponent " + txt)
+	}
+	return txt[:i] + "e" + strconv.Itoa(exp)
 }
 
 func (p *c01TermParser) optInt() *int64 {
